@@ -1,5 +1,6 @@
 import Usid.Driver.J
 import Usid.Driver.Process
+import Usid.Driver.Crash
 /-! Line-protocol driver over the hand-written models: one JSON request per line on stdin,
     one JSON response per line on stdout. -/
 namespace Usid.Driver
@@ -8,7 +9,8 @@ open Lean Usid.J
 def handlers : List (String × (Json → R Json)) := [
   ("proc.ranks", hProcRanks),
   ("proc.socket", hSocket),
-  ("proc.run", hProcRun)
+  ("proc.run", hProcRun),
+  ("crash.wf", hCrashWf), ("crash.trace", hCrashTrace), ("crash.resume", hCrashResume)
 ]
 
 def respond (tbl : List (String × (Json → R Json))) (line : String) : String :=
